@@ -169,11 +169,11 @@ Case ==
   LET ws == TheWs
       ps == ProbeSite(site)
       env == Env(ws, 1)
-  IN [check |-> "C15", ws |-> ws,
+  IN [check |-> "C15", ws |-> WsV(ws),
       site |-> [file |-> 1, decl |-> ps[1], slot |-> ps[2]], sitekind |-> site,
       fqns |-> [g \in Files(ws) |-> DeclFQNs(ws, g)],
-      refs |-> [g \in Files(ws) |-> {r \in RefsOf(ws, g) : ~(g = 1 /\ <<r.decl, r.slot>> = ps)}],
-      probes |-> SetToSeq({[sp |-> sp, exp |-> Outcome(ws, env, 1, ps[1], ps[2], sp)] : sp \in Spellings})]
+      refs |-> [g \in Files(ws) |-> {RefV(r) : r \in {x \in RefsOf(ws, g) : ~(g = 1 /\ <<x.decl, x.slot>> = ps)}}],
+      probes |-> SetToSeq({[sp |-> SpText(sp), exp |-> ExpV(Outcome(ws, env, 1, ps[1], ps[2], sp))] : sp \in Spellings})]
 
 Export == stage = "done" => PrintT("CASE " \o ToJson(Case))
 =============================================================================
